@@ -20,8 +20,9 @@ PartyA == Arr(<<B1, Neg2I(5), Nil>>)
 SuppA == Arr(<<Z2I(128), PA, B1>>)
 KdfA == Arr(<<Neg2I(7), PartyA, Arr(<<Nil, Nil, Nil>>), SuppA, B1, B0>>)
 
+HdrUtf8Ct == Map(<< <<Nat2I(3), Tx(<<195,169,195,169,47,230,151,165>>)>>, <<Tx(<<230,151,165>>), Tx(<<240,159,152,128>>)>> >>)   \* content type "éé/日"
 AccItems == <<
-  <<"Header", "", EmptyMap>>, <<"Header", "", HdrFull>>, <<"Header", "", HdrCs2>>,
+  <<"Header", "", EmptyMap>>, <<"Header", "", HdrUtf8Ct>>, <<"CoseSign1", "", Arr(<<Bs(Enc(HdrUtf8Ct)), HdrUtf8Ct, B1, B0>>)>>, <<"Header", "", HdrFull>>, <<"Header", "", HdrCs2>>,
   <<"ProtectedHeader", "", HdrFull>>,
   <<"CoseSignature", "", SigAlg>>, <<"CoseSignature", "", SigNested>>,
   <<"CoseSign1", "", Arr(<<PA, HdrCs2, Nil, B1>>)>>, <<"CoseSign1", "", Arr(<<B0, EmptyMap, B12, B0>>)>>,
